@@ -14,7 +14,11 @@ F1 = [f"{V}({i})" for i in range(3)]
 
 
 def item_text(combo, subset, placement, first, entry):
-    attrs = " ".join(M.render_attrs(combo, p_c05.KEY, p_c05.BY))
+    by = p_c05.BY
+    if nan_field(subset) and M.source("PartialEq", combo) == ("by", "partial_ord") and M.source("PartialOrd", combo) == ("by", "partial_ord"):
+        # `==` and `partial_cmp` both come from the one partial_ord(by = ..) function: let it be a partial one (None on V(5))
+        by = dict(by, partial_ord="::dxrt::by_pcmp_nan")
+    attrs = " ".join(M.render_attrs(combo, p_c05.KEY, by))
     fa, fb = (f"{attrs} f0: {V}", f"f1: {V}") if first else (f"f0: {V}", f"{attrs} f1: {V}")
     # only PartialEq / PartialOrd derived: a third, float-like field (P(9) is its NaN) - values that are not equal to themselves
     fc = f", f2: {PF}" if nan_field(subset) else ""
